@@ -385,3 +385,133 @@ fn sending_flush<const SIT: u8>() {
 fin_harness!(c01_fin_sending_flush_fresh, sending_flush::<FRESH>());
 fin_harness!(c01_fin_sending_flush_flight, sending_flush::<FLIGHT>());
 fin_harness!(c01_fin_sending_flush_acked, sending_flush::<ACKED>());
+
+// ------------------------------------------------------------------------------------------------
+// Through `Outgoing::try_load_data_into`: the state transitions around the FIN and the frame that
+// is actually written (STREAM frame header fields), for a packet with `cap` bytes of room.
+
+use bytes::BufMut;
+use qbase::{frame::Frame, packet::io::RecordFrame};
+
+/// Packet buffer that records the STREAM frame handed to it (`record_frame`) and counts bytes.
+struct Packet {
+    cap: usize,
+    pos: usize,
+    frames: u32,
+    off: u64,
+    len: usize,
+    fin: bool,
+    dummy: [u8; 1],
+}
+unsafe impl BufMut for Packet {
+    fn remaining_mut(&self) -> usize {
+        self.cap - self.pos
+    }
+    unsafe fn advance_mut(&mut self, cnt: usize) {
+        self.pos += cnt;
+    }
+    fn chunk_mut(&mut self) -> &mut bytes::buf::UninitSlice {
+        panic!("raw chunk access is not used by the frame writers");
+        #[allow(unreachable_code)]
+        bytes::buf::UninitSlice::new(&mut self.dummy[..])
+    }
+    fn put_slice(&mut self, src: &[u8]) {
+        assert!(src.len() <= self.cap - self.pos, "advance out of bounds");
+        self.pos += src.len();
+    }
+    fn put_bytes(&mut self, _val: u8, cnt: usize) {
+        assert!(cnt <= self.cap - self.pos, "advance out of bounds");
+        self.pos += cnt;
+    }
+}
+impl<'a> RecordFrame<Frame<&'a [Bytes]>, &'a [Bytes]> for Packet {
+    fn record_frame(&mut self, frame: &Frame<&'a [Bytes]>) {
+        self.frames += 1;
+        if let Frame::Stream(f, _data) = frame {
+            self.off = f.offset();
+            self.len = f.len();
+            self.fin = f.is_fin();
+        }
+    }
+}
+
+/// Ready / Sending -> DataSent exactly when the emitted frame carries FIN; the frame on the wire
+/// carries (offset, length, FIN) of what was picked and fits the packet.
+fn load_step<const SIT: u8>() {
+    let (sndbuf, t, _sendable) = sndbuf_in::<SIT>();
+    let shutdown: bool = kani::any();
+    let sid = any_sid();
+    let ready: bool = SIT == FRESH && kani::any();
+    let state = if ready {
+        Sender::Ready(ReadySender { stream_id: sid, sndbuf, flush_waker: None, shutdown_waker: if shutdown { Some(waker(2)) } else { None }, broker: Broker, tx_wakers: tx_handle(), writable_waker: None, metrics: None })
+    } else {
+        Sender::Sending(SendingSender { stream_id: sid, sndbuf, flush_waker: None, shutdown_waker: if shutdown { Some(waker(2)) } else { None }, broker: Broker, tx_wakers: tx_handle(), writable_waker: None, metrics: None })
+    };
+    let arc = ArcSender(Arc::new(Mutex::new(Ok(state))));
+    let outgoing = Outgoing::new(arc.clone());
+    // DataStreams only calls with at least STREAM_FRAME_MAX_ENCODING_SIZE (25) bytes of room
+    let cap: usize = kani::any();
+    kani::assume(cap >= 25 && cap <= 64);
+    let mut packet = Packet { cap, pos: 0, frames: 0, off: 0, len: 0, fin: false, dummy: [0] };
+    let flow_limit: usize = kani::any();
+    let tokens: usize = kani::any();
+    kani::assume(tokens >= 1);
+
+    let res = outgoing.try_load_data_into(&mut packet, sid, flow_limit, tokens);
+
+    let guard = arc.sender();
+    let now_data_sent = matches!(guard.as_ref().unwrap(), Sender::DataSent(_));
+    let now_sending = matches!(guard.as_ref().unwrap(), Sender::Sending(_));
+    assert!(now_data_sent || now_sending, "a stream that was asked for data has left Ready");
+    match res {
+        Ok((data_len, fresh)) => {
+            assert!(packet.frames == 1 && packet.pos <= cap && packet.pos >= 2, "exactly one STREAM frame, inside the packet");
+            assert!(packet.len == data_len && packet.off + data_len as u64 <= t && data_len <= tokens);
+            assert!(packet.fin == (shutdown && packet.off + data_len as u64 == t), "FIN bit iff shut down and the frame ends at the total size");
+            assert!(now_data_sent == packet.fin, "DataSent exactly when the FIN went out");
+            if fresh {
+                assert!(data_len <= flow_limit && SIT == FRESH);
+            }
+            if let Sender::DataSent(s) = guard.as_ref().unwrap() {
+                assert!(s.fin_state == FinState::Sent && s.shutdown_waker.is_some() && s.sndbuf.written() == t);
+            }
+            kani::cover!(packet.fin && data_len > 0, "data + FIN");
+            kani::cover!(SIT == LOST || (packet.fin && data_len == 0), "bare FIN");
+        }
+        Err(_) => {
+            assert!(packet.frames == 0 && packet.pos == 0 && now_sending, "nothing written, no transition");
+        }
+    }
+    drop(guard);
+    core::mem::forget(outgoing);
+    core::mem::forget(arc);
+}
+
+fin_harness!(c01_fin_load_fresh, load_step::<FRESH>());
+fin_harness!(c01_fin_load_lost, load_step::<LOST>());
+fin_harness!(c01_fin_load_flight, load_step::<FLIGHT>());
+
+/// PENDING (observation, public `Outgoing` API only): in DataSent a FIN that was reported lost is
+/// re-sent WITHOUT consulting the space predicate; with less room than a STREAM header the frame
+/// writer's `assert!(encoding_size_without_length <= capacity)` fires. `DataStreams` never calls
+/// with less than 25 bytes of room, so this is not reachable from the wire.
+fn resend_fin_small_packet(cap_min: usize) {
+    let (sndbuf, _t, sendable) = sndbuf_in::<ACKED>();
+    kani::assume(sendable == sndbuf.written());
+    let sid = any_sid();
+    let s = DataSentSender { stream_id: sid, sndbuf, flush_waker: None, shutdown_waker: Some(waker(2)), broker: Broker, tx_wakers: tx_handle(), fin_state: FinState::Lost };
+    let arc = ArcSender(Arc::new(Mutex::new(Ok(Sender::DataSent(s)))));
+    let outgoing = Outgoing::new(arc.clone());
+    let cap: usize = kani::any();
+    kani::assume(cap >= cap_min && cap <= 64);
+    let mut packet = Packet { cap, pos: 0, frames: 0, off: 0, len: 0, fin: false, dummy: [0] };
+    let res = outgoing.try_load_data_into(&mut packet, sid, 0, 1);
+    assert!(res == Ok((0, false)) && packet.frames == 1 && packet.fin && packet.len == 0, "the lost FIN goes out again as an empty frame");
+    assert!(packet.pos <= cap);
+    kani::cover!(cap == cap_min, "smallest packet");
+    core::mem::forget(outgoing);
+    core::mem::forget(arc);
+}
+
+fin_harness!(c01_fin_resend_fits, resend_fin_small_packet(25));
+fin_harness!(c01_fin_resend_ignores_capacity, resend_fin_small_packet(0));
